@@ -1356,6 +1356,13 @@ BGP99_extrapolation_assign(const Pointset_Powerset& y,
   // `x' is the current iteration value.
   Pointset_Powerset& x = *this;
 
+  if (&y == this) {
+    // The reductions of `x' below must not change the argument.
+    const Pointset_Powerset<PSET> y_copy = y;
+    x.BGP99_extrapolation_assign(y_copy, widen_fun, max_disjuncts);
+    return;
+  }
+
 #ifndef NDEBUG
   {
     // We assume that `y' entails `x'.
